@@ -81,6 +81,75 @@ def enumerate_cases(b):
     return out
 
 
+# ----------------------------------------------------------------------------------------------- sessions
+def dense_pts(n, x0, y0, dx, sl, amp):
+    """n integer points dx px apart in x, on a chord of slope sl/16 with a sine bump of amp px (mild curvature)"""
+    return [[x0 + i * dx, y0 + int(round(i * dx * sl / 16.0 + (amp * math.sin(math.pi * i / (n - 1)) if n > 2 else 0.0)))]
+            for i in range(n)]
+
+
+def session_sizes(tier, rng):
+    """numbers of baseline points: the 2..5 of the enumerated spaces, then across 64 / 128 / 256 / 512 / 1024 (dense baselines as
+    imported from external PAGE XML or produced by polyline detectors) plus sampled ones"""
+    ns = [2, 5, 65, 128, 130, 200, 257, 300, 513, 1030] + [rng.randrange(66, 1100) for _ in range(2)]
+    if tier == "thorough":
+        ns += [4, 64, 127, 129, 255, 256, 1024, 1025, 2050, 3000] + [rng.randrange(66, 3000) for _ in range(8)]
+    return ns
+
+
+def sessions(tier, seed):
+    """Sampled sessions (not enumerated by TLC, see Cropper_Trace): one baseline + heights + crop height per session, cropped by
+    long-lived croppers of several configurations one after the other - the three interpolation orders at scale 1, another scale,
+    a configuration used before again - some calls right after a call that fails.  The objects live on across sessions."""
+    import random
+    rng = random.Random(7919 * (seed + 1))
+    out = []
+    for k, n in enumerate(session_sizes(tier, rng)):
+        long_ = 12500 if n > 1100 else 5200
+        dx = rng.choice([d for d in ([12, 23, 37] if n <= 5 else [4, 5, 7, 12]) if (n - 1) * d <= long_] or [4])
+        chord_x = (n - 1) * dx
+        sl = rng.choice([v for v in range(-12, 13) if abs(chord_x * v) <= 16 * 1200])
+        amp = rng.choice([0, 3, 6, -5])
+        sc2 = rng.choice([8, 12, 15])
+        # crop widths stay below 16000 columns (cv2.remap addresses images with 16-bit integers)
+        combos = [(a, d, h) for (a, d) in ((12, 5), (22, 10), (20, 8), (30, 12)) for h in (16, 32, 48, 64)
+                  if 1.3 * chord_x * h * 10 <= 16000 * (a + d) * 8]
+        asc, desc, h = rng.choice(combos or [(30, 12, 16)])
+        rel = dense_pts(n, 0, 0, dx, sl, amp)
+        x0 = -20 if k % 4 == 3 else 30                       # every fourth line starts left of the page
+        y0 = 10 + int(math.ceil(1.5 * asc)) - min(p[1] for p in rel)
+        pts = [[x0 + p[0], y0 + p[1]] for p in rel]
+        ph = max(p[1] for p in pts) + int(math.ceil(1.5 * desc)) + 12
+        pw = max(p[0] for p in pts) + 40
+        p2 = rng.choice([0, 1, 2])
+        calls = [(0, 10, False), (1, 10, False), (2, 10, True), (p2, sc2, False), ((p2 + 1) % 3, sc2, False), (p2, 10, True)]
+        via = "linecropper" if k % 3 == 2 else "engine"
+        out.append([{"pts": pts, "asc": asc, "desc": desc, "H": h, "poly": poly, "sc": sc,
+                     "page": {"kind": "rows", "h": ph, "w": pw, "ox": 0, "oy": 0}, "base": {"h": ph, "w": pw},
+                     "record_px": False, "shift": 0, "gen": [n, x0, y0, dx, sl, amp], "via": via,
+                     "long_lived": True, "after_failure": bool(fail)} for poly, sc, fail in calls])
+    return out
+
+
+def run_sessions(sess):
+    """every call of every session, in order, in THIS process; a case carries the earlier calls of its session (what replay re-runs)"""
+    reset_long_lived()
+    cases, traces = [], []
+    for s in sess:
+        for k, c in enumerate(s):
+            traces.append(run_case(c))
+            cases.append(dict(c, session=s[:k]))
+    return cases, traces
+
+
+def replay_case(case):
+    if case.get("long_lived"):
+        reset_long_lived()
+        for c in case.get("session") or []:
+            run_case(c)
+    return run_case(case)
+
+
 # ----------------------------------------------------------------------------------------------- pages
 def _val_rows(y):
     return ((y * 37 + 11) % 251) + 1
@@ -121,6 +190,17 @@ def paint(page, base):
     return np.ascontiguousarray(np.repeat(g[:, :, None], 3, 2))
 
 
+_LAST_PAGE = [None, None]
+
+
+def _session_page(case):
+    """calls of one session get the same page image object (as the pipeline hands one image to one cropper after the other)"""
+    key = repr((sorted(case["page"].items()), sorted(case["base"].items())))
+    if _LAST_PAGE[0] != key:
+        _LAST_PAGE[0], _LAST_PAGE[1] = key, paint(case["page"], case["base"])
+    return _LAST_PAGE[1]
+
+
 # ----------------------------------------------------------------------------------------------- recorder
 class _Cv2Proxy:
     """stands in for the cv2 module inside crop_engine so that the source image of each remap call is seen"""
@@ -146,16 +226,20 @@ def install_proxy():
 def run_case(case):
     """Execute the real crop() once; every exception of the real code is part of the observation."""
     install_proxy()
-    img = paint(case["page"], case["base"])
+    img = _session_page(case) if case.get("long_lived") else paint(case["page"], case["base"])
     ev = {"inp": "none", "cwin": 0, "path": "none", "kind": "none", "h": 0, "w": 0}
     rec = {"pts": case["pts"], "asc": case["asc"], "desc": case["desc"], "H": case["H"], "poly": case["poly"],
-           "sc": case["sc"], "page": case["page"], "outcome": "ok", "ev": ev, "px": [], "ref": [], "msg": False}
+           "sc": case["sc"], "page": case["page"], "outcome": "ok", "ev": ev, "px": [], "ref": [], "msg": False, "corners": []}
     lc = None
     if case.get("via") == "linecropper":        # the pipeline's wrapper (page_parser.LineCropper.process_page) around the same engine
-        lc = _line_cropper(case)
+        lc = _long_lived(case) if case.get("long_lived") else _line_cropper(case)
         ce = lc.crop_engine
+    elif case.get("long_lived"):
+        ce = _long_lived(case)
     else:
         ce = EngineLineCropper(line_height=case["H"], poly=case["poly"], scale=case["sc"] / 10)
+    if case.get("after_failure"):
+        _failing_call(lc if lc is not None else ce, img)
     real_inputs, real_remap = ce.get_crop_inputs, ce.fast_remap
     _PROXY.calls = []
     _PROXY.page = img
@@ -168,6 +252,7 @@ def run_case(case):
             raise
         ev["inp"] = "ok"
         ev["cwin"] = int(co.shape[1]) if getattr(co, "ndim", 0) == 3 else 0
+        rec["corners"] = _corners(co)
         return co
 
     def remap(*a, **k):
@@ -194,6 +279,8 @@ def run_case(case):
         rec["outcome"] = "exception:" + type(ex).__name__
     finally:
         _PROXY.page = None
+        for name in ("get_crop_inputs", "fast_remap"):      # long-lived objects: take the observers off again
+            ce.__dict__.pop(name, None)
     rec["msg"] = "line crop failed" in buf.getvalue()
     if ev["inp"] == "raise":
         ev["path"] = "skipped"
@@ -211,6 +298,61 @@ def run_case(case):
             if case.get("record_px") and crop.size and crop.shape[0] * crop.shape[1] <= 20000:
                 rec["px"] = [[int(v) for v in row] for row in crop[:, :, 0]]
     return rec
+
+
+FP = 16           # fixed point of recorded sample positions: 1/16 px
+FP_CLAMP = 1 << 20
+
+
+def _corners(co):
+    """the four corners of the coordinate grid get_crop_inputs returned - <<top-left, top-right, bottom-left, bottom-right>>, each
+    (x, y) in 1/16 px (non-finite or absurd values are clamped: the trace spec then sees a position far from the baseline)"""
+    try:
+        co = np.asarray(co, dtype=np.float64)
+        if co.ndim != 3 or co.shape[2] != 2 or co.shape[0] < 1 or co.shape[1] < 1:
+            return []
+        out = []
+        for r, c in ((0, 0), (0, -1), (-1, 0), (-1, -1)):
+            v = np.nan_to_num(co[r, c] * FP, nan=FP_CLAMP, posinf=FP_CLAMP, neginf=-FP_CLAMP)
+            out.append([int(np.clip(np.round(v[0]), -FP_CLAMP, FP_CLAMP)), int(np.clip(np.round(v[1]), -FP_CLAMP, FP_CLAMP))])
+        return out
+    except Exception:
+        return []
+
+
+# Long-lived croppers (C10 sessions): the pipeline keeps ONE LineCropper / EngineLineCropper per configuration for the life of the
+# process and hands it line after line, page after page; several configurations may live side by side.  A session of the driver
+# does the same: the objects below are created once per (kind, height, interpolation, scale) and re-used by every later call.
+_LONG_LIVED = {}
+
+
+def reset_long_lived():
+    _LONG_LIVED.clear()
+
+
+def _long_lived(case):
+    key = (case.get("via", "engine"), case["H"], case["poly"], case["sc"])
+    if key not in _LONG_LIVED:
+        _LONG_LIVED[key] = (_line_cropper(case) if case.get("via") == "linecropper" else
+                            EngineLineCropper(line_height=case["H"], poly=case["poly"], scale=case["sc"] / 10))
+    return _LONG_LIVED[key]
+
+
+def _failing_call(obj, img):
+    """Before some calls of a session the same long-lived object is handed a line outside the scope (a single-point baseline with
+    zero heights, then an empty one): the call falls back or raises half-way.  Whatever it does there, nothing may be left behind
+    for the next line."""
+    for pts in ([[5, 5]], []):
+        try:
+            with contextlib.redirect_stdout(io.StringIO()), np.errstate(all="ignore"), warnings.catch_warnings():
+                warnings.simplefilter("ignore")
+                if hasattr(obj, "process_page"):
+                    bad = {"pts": pts, "asc": 0, "desc": 0, "poly": 0}
+                    _process_page(obj, img, bad)
+                else:
+                    obj.crop(img, np.array(pts, dtype=float).reshape(-1, 2), [0, 0])
+        except BaseException:
+            pass
 
 
 def _line_cropper(case):
@@ -233,8 +375,15 @@ def _process_page(lc, img, case):
 
 
 def label(case):
-    return "pts=%s heights=[%d,%d] H=%d poly=%d scale=%.1f page=%s" % (
-        case["pts"], case["asc"], case["desc"], case["H"], case["poly"], case["sc"] / 10, case["page"])
+    pts = case["pts"]
+    shown = str(pts) if len(pts) <= 8 else "%s ... %s (%d points)" % (str(pts[:3])[:-1], str(pts[-2:])[1:], len(pts))
+    extra = ""
+    if case.get("long_lived"):
+        extra = " [call %d of a session on long-lived %s objects%s]" % (
+            len(case.get("session") or []) + 1, "LineCropper" if case.get("via") == "linecropper" else "EngineLineCropper",
+            ", after a failing call" if case.get("after_failure") else "")
+    return "pts=%s heights=[%d,%d] H=%d poly=%d scale=%.1f page=%s%s" % (
+        shown, case["asc"], case["desc"], case["H"], case["poly"], case["sc"] / 10, case["page"], extra)
 
 
 def frac_high(pts):
